@@ -13,18 +13,18 @@ import (
 
 func init() {
 	register(&PropRules{
-		ID: "C11",
+		ID:      "C11",
 		Explain: "Linearizability — structural preconditions: (C11.1) confinement: every access to s.dir and every call of a store-library (lib.Dir / UserHash) method in cmd/whawty-auth runs only in the dispatcher goroutine (role analysis over the VTA call graph; NewStore's accesses precede the `go` that starts it), and no `go` statement is reachable from the dispatcher, so each operation's effect lies between its request and its response; (C11.2) request/response pairing as in C10.2 (fresh private response channel ⇒ no cross-talk) and the SASL per-connection handler writes no shared state; (C11.3) internally generated writes are atomic with their check: the upgrade write (an update request without response channel) is performed only under a successful authentication of the same user with the same password in the same dispatcher turn (or not queued at all); (C11.4) reload (the pointer swap of s.dir) is called only from the dispatcher.",
-		Undec: []string{"real-time histories as such (only the single-writer/turn structure is decided)", "multi-process access to one directory", "races inside net/http, glauth/ldap and other libraries"},
-		Run:   runC11,
-		Floors: map[string]int{"C11.1": 10, "C11.2": 18, "C11.3": 1, "C11.4": 1},
+		Undec:   []string{"real-time histories as such (only the single-writer/turn structure is decided)", "multi-process access to one directory", "races inside net/http, glauth/ldap and other libraries"},
+		Run:     runC11,
+		Floors:  map[string]int{"C11.1": 10, "C11.2": 18, "C11.3": 1, "C11.4": 1},
 	})
 	register(&PropRules{
-		ID: "C12",
+		ID:      "C12",
 		Explain: "Hash upgrades — structural part: (C12.1) UserHash.Authenticate reports upgradeable exactly as store.Default != <parameter-set id of the record just read> (false on every error return); (C12.2) the upgrade request is enqueued only under result.ok ∧ result.upgradeable ∧ upgradeChan != nil, carries the login's (username, password) unchanged and no response channel; NewStore maps \"\" → nil, \"local\" → the update queue, anything else → the remote upgrader (its error is fatal) and nothing else writes upgradeChan; (C12.3) a local upgrade is the ordinary update path (policy included, C17) and writeHashStr takes the hasher and the written parameter-set id from the same store.Default; (C12.4) the rewrite happens only for a password that is valid at rewrite time (= C11.3); (C12.5) with upgrades off no authentication can reach a mutation: the authenticate step has no call edge to a mutator (C15.2) and its only message is guarded by upgradeChan != nil.",
-		Undec: []string{"liveness: 'on an idle agent the rewrite does happen'", "the remote master's behaviour", "digest values (C14)"},
-		Run:   runC12,
-		Floors: map[string]int{"C12.1": 1, "C12.2": 3, "C12.3": 2, "C12.4": 1},
+		Undec:   []string{"liveness: 'on an idle agent the rewrite does happen'", "the remote master's behaviour", "digest values (C14)"},
+		Run:     runC12,
+		Floors:  map[string]int{"C12.1": 1, "C12.2": 3, "C12.3": 2, "C12.4": 1},
 	})
 }
 
@@ -42,8 +42,8 @@ func runC11(c *an.Ctx, p *an.Prog, thorough bool) {
 	}
 	var accs []acc
 	for _, fn := range pkgFns(p, mainPkg) {
-		for _, b := range fn.Blocks {
-			for _, in := range b.Instrs {
+		for _, in := range an.DeepInstrs(fn) {
+			{
 				switch x := in.(type) {
 				case *ssa.FieldAddr:
 					if isNamed(x.X.Type(), mainPkg, "store") && fieldNameOf(x) == "dir" {
@@ -111,8 +111,8 @@ func runC11(c *an.Ctx, p *an.Prog, thorough bool) {
 			if !p.InRepo(f) {
 				continue
 			}
-			for _, b := range f.Blocks {
-				for _, in := range b.Instrs {
+			for _, in := range an.DeepInstrs(f) {
+				{
 					if _, ok := in.(*ssa.Go); ok {
 						bad = append(bad, "go statement in "+fnKey(f)+" at "+p.InstrPos(in)+" ("+an.Chain(reach, f)+")")
 					}
@@ -133,8 +133,8 @@ func runC11(c *an.Ctx, p *an.Prog, thorough bool) {
 			if fn == ns {
 				continue
 			}
-			for _, b := range fn.Blocks {
-				for _, in := range b.Instrs {
+			for _, in := range an.DeepInstrs(fn) {
+				{
 					ci, ok := in.(ssa.CallInstruction)
 					if !ok {
 						continue
@@ -170,8 +170,8 @@ func runC11(c *an.Ctx, p *an.Prog, thorough bool) {
 			if an.FnPkgPath(f) != saslPkg {
 				continue
 			}
-			for _, b := range f.Blocks {
-				for _, in := range b.Instrs {
+			for _, in := range an.DeepInstrs(f) {
+				{
 					st, ok := in.(*ssa.Store)
 					if !ok {
 						continue
@@ -214,8 +214,8 @@ func runC11(c *an.Ctx, p *an.Prog, thorough bool) {
 		}
 		// writers of s.dir: NewStore and reload only
 		for _, fn := range pkgFns(p, mainPkg) {
-			for _, b := range fn.Blocks {
-				for _, in := range b.Instrs {
+			for _, in := range an.DeepInstrs(fn) {
+				{
 					if st, ok := in.(*ssa.Store); ok {
 						if fa, ok := st.Addr.(*ssa.FieldAddr); ok && isNamed(fa.X.Type(), mainPkg, "store") && fieldNameOf(fa) == "dir" && fn != rl && fn != ns {
 							bad = append(bad, "s.dir written in "+fnKey(fn)+" at "+p.InstrPos(in))
@@ -476,8 +476,8 @@ func runC12(c *an.Ctx, p *an.Prog, thorough bool) {
 	if ns := p.Func("/cmd/whawty-auth", "NewStore"); need(c, "C12.2", ns, "main.NewStore") {
 		var bad []string
 		modes := map[string]string{}
-		for _, b := range ns.Blocks {
-			for _, in := range b.Instrs {
+		for _, in := range an.DeepInstrs(ns) {
+			{
 				st, ok := in.(*ssa.Store)
 				if !ok {
 					continue
@@ -542,8 +542,8 @@ func runC12(c *an.Ctx, p *an.Prog, thorough bool) {
 			if fn == ns {
 				continue
 			}
-			for _, b := range fn.Blocks {
-				for _, in := range b.Instrs {
+			for _, in := range an.DeepInstrs(fn) {
+				{
 					if st, ok := in.(*ssa.Store); ok {
 						if fa, ok := st.Addr.(*ssa.FieldAddr); ok && fieldNameOf(fa) == "upgradeChan" {
 							bad = append(bad, "upgradeChan written in "+fnKey(fn)+" at "+p.InstrPos(in))
